@@ -254,6 +254,29 @@ size_t varintFloatEncode(uint8_t *output, const double *values,
         }
     }
 
+    /* COMMON_EXPONENT stores each exponent as an 8-bit offset from the
+     * smallest one. If the exponents of this array are spread wider than that,
+     * encode them independently instead (the decoder follows the mode byte). */
+    varintFloatEncodingMode effectiveMode = mode;
+    if (mode == VARINT_FLOAT_MODE_COMMON_EXPONENT) {
+        int min_e = INT16_MAX;
+        int max_e = INT16_MIN;
+        for (size_t i = 0; i < count; i++) {
+            if (!special_flags[i]) {
+                if (exponents[i] < min_e) {
+                    min_e = exponents[i];
+                }
+                if (exponents[i] > max_e) {
+                    max_e = exponents[i];
+                }
+            }
+        }
+        if (max_e > min_e && max_e - min_e > UINT8_MAX) {
+            effectiveMode = VARINT_FLOAT_MODE_INDEPENDENT;
+            output[3] = (uint8_t)effectiveMode;
+        }
+    }
+
     /* Write special values bitmap */
     const size_t special_bitmap_size = (count + 7) / 8;
     packBits(special_flags, count, 1, p);
@@ -264,7 +287,7 @@ size_t varintFloatEncode(uint8_t *output, const double *values,
     p += (count + 7) / 8;
 
     /* Write exponents based on mode */
-    if (mode == VARINT_FLOAT_MODE_INDEPENDENT) {
+    if (effectiveMode == VARINT_FLOAT_MODE_INDEPENDENT) {
         /* Each exponent independently */
         for (size_t i = 0; i < count; i++) {
             if (!special_flags[i]) {
@@ -277,7 +300,7 @@ size_t varintFloatEncode(uint8_t *output, const double *values,
                 p += width;
             }
         }
-    } else if (mode == VARINT_FLOAT_MODE_COMMON_EXPONENT) {
+    } else if (effectiveMode == VARINT_FLOAT_MODE_COMMON_EXPONENT) {
         /* Find min/max exponents for non-special values */
         int16_t min_exp = INT16_MAX;
         int16_t max_exp = INT16_MIN;
